@@ -170,4 +170,15 @@ def eval_term(tag, run_module, term, prelude="", timeout=300):
         f.write(prelude + "\n")
         f.write("Eval vm_compute in (%s).\n" % term)
     rc, out, err, _ = _run_one(path, timeout)
-    return out.strip() if rc == 0 else "ERROR: " + err[-800:]
+    return decode_strs(out.strip()) if rc == 0 else "ERROR: " + err[-800:]
+
+
+def decode_strs(text):
+    """Make printed `str` values (lists of N code points) readable."""
+    def rep(m):
+        nums = re.findall(r"(\d+)%N", m.group(0))
+        try:
+            return "<<" + "".join(chr(int(n)) for n in nums) + ">>"
+        except (ValueError, OverflowError):
+            return m.group(0)
+    return re.sub(r"\[\s*\d+%N(?:\s*;\s*\d+%N)*\s*\]", rep, text)
